@@ -27,6 +27,9 @@ fn ver(ietf: bool) -> Version {
 
 #[derive(Debug, Clone, Serialize, Deserialize)]
 pub struct IdCase {
+    /// certify ONE online key for all entries of a restart (instead of a fresh one per certificate)
+    #[serde(default)]
+    pub same_online: bool,
     pub seed: Hex,
     /// per restart: the order of protocols for which certificates are made
     pub restarts: Vec<Vec<bool>>,
@@ -97,11 +100,13 @@ fn check_identity(ctx: &mut Ctx, c: &IdCase) -> Res {
         if format!("{}", ltk) != hex(&pk) {
             return ctx.fail("display-not-public-key", format!("Display of LongTermKey is {:?}", format!("{}", ltk)));
         }
+        let shared = OnlineKey::new();
         for &ietf in order {
             ctx.eval();
-            let online = OnlineKey::new();
+            let fresh = OnlineKey::new();
+            let online = if c.same_online { &shared } else { &fresh };
             let online_pk = online.make_dele().get_field(roughenough::Tag::PUBK).map(|p| p.to_vec()).unwrap_or_default();
-            let cert = match no_unwind(|| ltk.make_cert(&ver(ietf), &online).encode().unwrap()) {
+            let cert = match no_unwind(|| ltk.make_cert(&ver(ietf), online).encode().unwrap()) {
                 Ok(c) => c,
                 Err(p) => return ctx.fail("make-cert-panic", p),
             };
@@ -126,6 +131,11 @@ fn check_identity(ctx: &mut Ctx, c: &IdCase) -> Res {
 
 #[derive(Debug, Clone, Serialize, Deserialize)]
 pub struct SrvIdCase {
+    /// status_interval of the server in milliseconds (0 = default 600 s) and a pause before traffic so that its timers fire
+    #[serde(default)]
+    pub interval_ms: u16,
+    #[serde(default)]
+    pub pause_ms: u16,
     pub seed: Hex,
     pub restarts: u8,
     pub batch_size: u8,
@@ -136,10 +146,21 @@ fn check_server_identity(ctx: &mut Ctx, c: &SrvIdCase) -> Res {
     let pk = RefKey::from_seed(&c.seed.0).public();
     let mut online_keys = std::collections::HashSet::new();
     for r in 0..c.restarts {
-        let mut lab = match Lab::new(LabCfg { seed: c.seed.0.clone(), batch_size: c.batch_size, ..Default::default() }, 16) {
+        let status_interval = if c.interval_ms == 0 { Duration::from_secs(600) } else { Duration::from_millis(c.interval_ms as u64) };
+        let mut lab = match Lab::new(LabCfg { seed: c.seed.0.clone(), batch_size: c.batch_size, status_interval, ..Default::default() }, 16) {
             Ok(l) => l,
             Err(e) => return ctx.fail("server-new-failed", e),
         };
+        if c.pause_ms > 0 {
+            // let one or more status intervals elapse, with the server pumping its timer events
+            let end = std::time::Instant::now() + Duration::from_millis(c.pause_ms as u64);
+            while std::time::Instant::now() < end {
+                if let Err(p) = lab.step(&[], 0) {
+                    return ctx.fail("process-events-panic", format!("{:?}", p));
+                }
+                std::thread::sleep(Duration::from_millis(3));
+            }
+        }
         if lab.server.get_public_key() != hex(&pk) {
             return ctx.fail("announced-key-not-rfc8032", format!("seed {}: server announces {} but RFC 8032 gives {} (start {})", hex(&c.seed.0), lab.server.get_public_key(), hex(&pk), r));
         }
@@ -191,12 +212,13 @@ pub fn run_c10(ctx: &mut Ctx) -> Vec<Violation> {
     install_logger(log::LevelFilter::Off);
     let t = ctx.tier;
     let mut out = vec![];
-    let id = (seed32(), proptest::collection::vec(proptest::collection::vec(any::<bool>(), 1..=8), 1..=6)).prop_map(|(seed, restarts)| IdCase { seed, restarts });
+    let id = (seed32(), proptest::collection::vec(proptest::collection::vec(any::<bool>(), 1..=8), 1..=6), any::<bool>()).prop_map(|(seed, restarts, same_online)| IdCase { same_online, seed, restarts });
     out.extend(run_prop(ctx, "library", t.pick(20_000, 200_000), 500, id, |ctx, c| {
         ctx.sample("library", 2, c);
         check_identity(ctx, c)
     }));
-    let srv = (seed32(), 1u8..=3, prop::sample::select(vec![1u8, 2, 7, 64]), proptest::collection::vec(std_req(), 1..=12)).prop_map(|(seed, restarts, batch_size, reqs)| SrvIdCase { seed, restarts, batch_size, reqs });
+    let srv = (seed32(), 1u8..=3, prop::sample::select(vec![1u8, 2, 7, 64]), proptest::collection::vec(std_req(), 1..=12), prop_oneof![5 => Just((0u16, 0u16)), 1 => (20u16..=60, 70u16..=160)])
+        .prop_map(|(seed, restarts, batch_size, reqs, (interval_ms, pause_ms))| SrvIdCase { interval_ms, pause_ms, seed, restarts, batch_size, reqs });
     out.extend(run_prop(ctx, "server", t.pick(4_000, 40_000), 200, srv, |ctx, c| {
         ctx.sample("server", 1, &(c.seed.clone(), c.restarts, c.reqs.len()));
         check_server_identity(ctx, c)
@@ -289,6 +311,48 @@ fn check_clock(ctx: &mut Ctx, c: &ClockCase) -> Res {
     ctx.class(&format!("c11:pure:{}:{}", proto.name(), nanos_class(c.nanos)));
     if c.nanos != 0 {
         ctx.nontrivial(&(c.secs, c.nanos, c.ietf));
+    }
+    Ok(())
+}
+
+/// several clock readings signed by ONE online key, in any order (a clock may be stepped back)
+#[derive(Debug, Clone, Serialize, Deserialize)]
+pub struct ClockSeq {
+    pub readings: Vec<(u64, u32, bool)>,
+}
+
+fn check_clock_seq(ctx: &mut Ctx, c: &ClockSeq) -> Res {
+    let mut online = OnlineKey::new();
+    let mut prev: Option<(u64, u32)> = None;
+    let mut backwards = false;
+    for (n, (secs, nanos, ietf)) in c.readings.iter().enumerate() {
+        ctx.eval();
+        let proto = if *ietf { Proto::Ietf } else { Proto::Classic };
+        let now = UNIX_EPOCH + Duration::new(*secs, *nanos);
+        let srep_msg = match no_unwind(|| online.make_srep(ver(*ietf), now, &[7u8; 32])) {
+            Ok(m) => m,
+            Err(p) => return ctx.fail("make-srep-panic", p),
+        };
+        let srep = match Msg::decode_known(srep_msg.get_field(roughenough::Tag::SREP).unwrap_or(&[])) {
+            Ok(m) => m,
+            Err(e) => return ctx.fail("srep-undecodable", format!("{:?}", e)),
+        };
+        let midp = srep.get(rc::MIDP).map(|m| u64::from_le_bytes(m.try_into().unwrap_or([0; 8]))).unwrap_or(0);
+        let radi = srep.get(rc::RADI).map(|m| u32::from_le_bytes(m.try_into().unwrap_or([0; 4]))).unwrap_or(0);
+        let t_ns = *secs as u128 * 1_000_000_000 + *nanos as u128;
+        if let Some(p) = prev {
+            if (*secs, *nanos) < p {
+                backwards = true;
+            }
+        }
+        if let Err((sig, what)) = check_midp(proto, midp, radi, t_ns) {
+            return ctx.fail(format!("sequence|{}", sig), format!("reading #{} of a sequence on one online key ({}): {}", n, if backwards { "after a larger reading" } else { "ascending so far" }, what));
+        }
+        prev = Some((*secs, *nanos));
+    }
+    ctx.class(&format!("c11:sequence:{}", if backwards { "non-monotonic" } else { "ascending" }));
+    if backwards {
+        ctx.nontrivial(&c.readings);
     }
     Ok(())
 }
@@ -397,6 +461,11 @@ pub fn run_c11(ctx: &mut Ctx) -> Vec<Violation> {
         ctx.sample("pure", 3, c);
         check_clock(ctx, c)
     }));
+    let seq = proptest::collection::vec((prop_oneof![0u64..=(1u64 << 33), 1_700_000_000u64..=1_700_000_100], prop_oneof![Just(0u32), Just(999_999_999u32), 0u32..1_000_000_000], any::<bool>()), 2..=12).prop_map(|readings| ClockSeq { readings });
+    out.extend(run_prop(ctx, "clock-sequences", t.pick(40_000, 400_000), 500, seq, |ctx, c| {
+        ctx.sample("clock-sequences", 1, c);
+        check_clock_seq(ctx, c)
+    }));
     // live: young servers (many) and aged servers (few; each costs > 1 s of sleeping)
     let young = (seed32(), prop::sample::select(vec![1u8, 3, 64]), proptest::collection::vec(0u16..3, 1..=3), proptest::collection::vec(std_req(), 1..=10)).prop_map(|(seed, batch_size, waits_ms, reqs)| LiveCase { seed, batch_size, waits_ms, reqs, sentinel_ietf: None, junk_before_wait: 0 });
     out.extend(run_prop(ctx, "live-young", t.pick(6_000, 60_000), 50, young, |ctx, c| check_live(ctx, c)));
@@ -482,6 +551,7 @@ pub fn replay_c11(ctx: &mut Ctx, sub: &str, case: &Value) -> Res {
     install_logger(log::LevelFilter::Off);
     match sub {
         "pure" => replay_case::<ClockCase, _>(ctx, case, |ctx, c| check_clock(ctx, c)),
+        "clock-sequences" => replay_case::<ClockSeq, _>(ctx, case, |ctx, c| check_clock_seq(ctx, c)),
         "live-young" | "live-aged" => replay_case::<LiveCase, _>(ctx, case, |ctx, c| check_live(ctx, c)),
         _ => Err(viol("bad-replay-file", format!("unknown sub {}", sub))),
     }
